@@ -227,10 +227,10 @@ pub fn read_integer(s: &mut dyn Read) -> RdpResult<u32> {
 /// assert_eq!(su32.into_inner(), [0x4, 0x00, 0x01, 0x00, 0x00]);
 /// ```
 pub fn write_integer(integer: u32, s: &mut dyn Write) -> RdpResult<()> {
-    if integer < 0xFF {
+    if integer <= 0xFF {
         write_length(1)?.write(s)?;
         (integer as u8).write(s)?;
-    } else if integer < 0xFFFF {
+    } else if integer <= 0xFFFF {
         write_length(2)?.write(s)?;
         U16::BE(integer as u16).write(s)?;
     } else {
